@@ -513,13 +513,51 @@ func c20RunCurry(variant string, n int, ops []string) string {
 // sleeps, 3 the first invocation lingers until another one finished or 50 ms passed).  The monitor checks the clauses
 // of the property on the log.
 func c20RunStress(g, m, a, n, y int) string {
+	// The monitor runs inside the user function, under logMu, against the previously logged invocation only: memory stays
+	// linear in the number of arguments (keeping a copy of every invocation's argument list is quadratic — 4.4 GB for
+	// `cs 32 600 3 -1 0` — and made the case miss its deadline on a busy machine).
 	var logMu sync.Mutex
-	var log [][]int
+	var prev []int            // arguments of the last logged invocation
+	count := 0                // invocations logged so far
+	lastHash := 0             // the value the last logged invocation returns
+	bad := ""                 // first deviation seen
+	seenLast := map[int]int{} // goroutine -> last accepted call index
 	var finished int32
+	check := func(i int, cur []int) string {
+		if len(cur) != len(prev)+a {
+			return fmt.Sprintf("bad invocation %d saw %d arguments after %d (one Call adds %d)", i, len(cur), len(prev), a)
+		}
+		for k := range prev {
+			if cur[k] != prev[k] {
+				return fmt.Sprintf("bad invocation %d does not extend the previous arguments", i)
+			}
+		}
+		if a > 0 {
+			blk := cur[len(prev):]
+			id := blk[0] / 10
+			for p, v := range blk {
+				if v != id*10+p {
+					return fmt.Sprintf("bad invocation %d: arguments of one Call are not contiguous/in order", i)
+				}
+			}
+			t, j := id/10000, id%10000
+			if last, ok := seenLast[t]; ok && j <= last {
+				return fmt.Sprintf("bad goroutine %d: call %d accepted after call %d", t, j, last)
+			}
+			seenLast[t] = j
+		}
+		return ""
+	}
 	c := fpgo.CurryNewGenerics(func(c *fpgo.CurryDef[int, int], args ...int) int {
 		cp := append([]int{}, args...)
+		h := c20Hash(cp)
 		logMu.Lock()
-		log = append(log, cp)
+		if bad == "" {
+			bad = check(count, cp)
+		}
+		prev = cp
+		count++
+		lastHash = h
 		logMu.Unlock()
 		if y == 1 {
 			runtime.Gosched()
@@ -540,7 +578,7 @@ func c20RunStress(g, m, a, n, y int) string {
 			c.MarkDone()
 		}
 		atomic.AddInt32(&finished, 1)
-		return c20Hash(cp)
+		return h
 	})
 	var wg sync.WaitGroup
 	start := make(chan struct{})
@@ -572,42 +610,20 @@ func c20RunStress(g, m, a, n, y int) string {
 			}
 			c.MarkDone()
 			logMu.Lock()
-			logAtMark = len(log)
+			logAtMark = count
 			logMu.Unlock()
 		}()
 	}
 	close(start)
 	wg.Wait()
-	// ---- monitor
-	total := g * m
-	seenLast := map[int]int{} // goroutine -> last accepted call index
-	prev := []int{}
-	for i, cur := range log {
-		if len(cur) != len(prev)+a {
-			return fmt.Sprintf("bad invocation %d saw %d arguments after %d (one Call adds %d)", i, len(cur), len(prev), a)
-		}
-		for k := range prev {
-			if cur[k] != prev[k] {
-				return fmt.Sprintf("bad invocation %d does not extend the previous arguments", i)
-			}
-		}
-		if a > 0 {
-			blk := cur[len(prev):]
-			id := blk[0] / 10
-			for p, v := range blk {
-				if v != id*10+p {
-					return fmt.Sprintf("bad invocation %d: arguments of one Call are not contiguous/in order", i)
-				}
-			}
-			t, j := id/10000, id%10000
-			if last, ok := seenLast[t]; ok && j <= last {
-				return fmt.Sprintf("bad goroutine %d: call %d accepted after call %d", t, j, last)
-			}
-			seenLast[t] = j
-		}
-		prev = cur
+	// ---- verdict
+	logMu.Lock()
+	defer logMu.Unlock()
+	if bad != "" {
+		return bad
 	}
-	accepted := len(log)
+	total := g * m
+	accepted := count
 	if accepted > total {
 		return "bad more invocations than Calls"
 	}
@@ -618,12 +634,12 @@ func c20RunStress(g, m, a, n, y int) string {
 		if accepted > logAtMark+1 {
 			return fmt.Sprintf("bad %d invocations after MarkDone returned", accepted-logAtMark)
 		}
-		if accepted > 0 && c.Result() != c20Hash(log[accepted-1]) {
+		if accepted > 0 && c.Result() != lastHash {
 			return "bad Result is not the last invocation's result"
 		}
 		return "ok"
 	}
-	if accepted > 0 && c.Result() != c20Hash(log[accepted-1]) {
+	if accepted > 0 && c.Result() != lastHash {
 		return "bad Result is not the last invocation's result"
 	}
 	wantDone := n >= 0 && accepted > 0 && accepted*a >= n
